@@ -133,11 +133,14 @@ Section Loop.
     (forall t, tmo = Some t -> now s < stop + cap) /\
     (ph = PExists -> p_kind p <> Child) /\
     (p_kind p = NeverExisted -> p_eintr p = [] -> now s == start /\ slept s = []) /\
-    (forall t, tmo = Some t -> t == 0 -> slept s = []).
+    (forall t, tmo = Some t -> t == 0 -> slept s = []) /\
+    (forall t, tmo = Some t -> t == 0 -> now s == start).
 
   Definition Post (s : wst) (r : wres) (s' : wst) : Prop :=
     slept_ok (slept s') /\ now s <= now s' /\ (calls s <= calls s')%nat /\
     (forall t, tmo = Some t -> t == 0 -> slept s' = []) /\
+    (forall t, tmo = Some t -> now s' < stop + cap) /\
+    (forall t, tmo = Some t -> t == 0 -> now s' == start) /\
     match r with
     | RInt z => p_kind p = Child /\ ended_by p (now s') = true /\ z = spec_code (p_status p)
     | RNone => p_kind p <> Child /\ k_exists p (now s') = false /\
@@ -171,7 +174,7 @@ Section Loop.
     ~ (p_kind p = NeverExisted /\ p_eintr p = []) ->
     Inv ph (do_sleep s).
   Proof.
-    intros ph s (I1 & I2 & I3 & I4 & I5 & I6 & I7 & I8 & I9) X NE.
+    intros ph s (I1 & I2 & I3 & I4 & I5 & I6 & I7 & I8 & I9 & I10) X NE.
     unfold Inv, do_sleep. cbn [now interval calls slept length].
     pose proof (ival_step _ _ I3) as ST.
     pose proof (ival_pos (S (length (slept s)))) as PS.
@@ -189,6 +192,7 @@ Section Loop.
     - exfalso. apply NE. split; assumption.
     - exfalso. apply NE. split; assumption.
     - intros t T Z0. exfalso. pose proof (expired_false _ _ X T) as L. subst stop. rewrite T in L. lra.
+    - intros t T Z0. exfalso. pose proof (expired_false _ _ X T) as L. subst stop. rewrite T in L. lra.
   Qed.
 
   Lemma inv_bump : forall ph s, Inv ph s -> Inv ph (bump s).
@@ -200,7 +204,7 @@ Section Loop.
   Lemma post_trans : forall s s1 r s',
     now s <= now s1 -> (calls s <= calls s1)%nat -> Post s1 r s' -> Post s r s'.
   Proof.
-    intros s s1 r s' A B (P1 & P2 & P3 & P4 & P5). unfold Post. repeat split; try assumption.
+    intros s s1 r s' A B (P1 & P2 & P3 & P4 & P4a & P4b & P5). unfold Post. repeat split; try assumption.
     - lra. - lia.
   Qed.
 
@@ -208,7 +212,7 @@ Section Loop.
     Inv ph s -> LOOP fuel ph s = (r, s') -> Post s r s'.
   Proof.
     induction fuel as [|f IH]; intros ph s r s' I L.
-    - cbn in L. inversion L. subst. destruct I as (I1 & I2 & I3 & I4 & I5 & I6 & I7 & I8 & I9).
+    - cbn in L. inversion L. subst. destruct I as (I1 & I2 & I3 & I4 & I5 & I6 & I7 & I8 & I9 & I10).
       unfold Post. repeat split; try assumption; try lra; try lia.
     - subst LOOP. cbn [loop] in L. destruct ph.
       + (* PWait *)
@@ -226,14 +230,14 @@ Section Loop.
         { intros alive L1 NE. destruct (expired tmo stop s1) eqn:X.
           - inversion L1. subst r s'. destruct (expired_true _ X) as (t & T & Le).
             rewrite (timeout_exc_some _ T).
-            destruct I1 as (J1 & J2 & J3 & J4 & J5 & J6 & J7 & J8 & J9).
+            destruct I1 as (J1 & J2 & J3 & J4 & J5 & J6 & J7 & J8 & J9 & J10).
             unfold Post. repeat split; try assumption; try lra; try lia.
             + eapply J6; eauto.
             + apply alive; assumption.
             + apply alive; assumption.
           - pose proof (inv_sleep _ _ I1 X NE) as I2.
             pose proof (IH _ _ _ _ I2 L1) as PP.
-            destruct I1 as (J1 & J2 & J3 & J4 & J5 & J6 & J7 & J8 & J9).
+            destruct I1 as (J1 & J2 & J3 & J4 & J5 & J6 & J7 & J8 & J9 & J10).
             eapply post_trans; [| |exact PP]; cbn [do_sleep now calls]; [lra | lia]. }
         unfold W in L at 1. unfold k_waitpid in L.
         destruct (has_eintr p (calls s)) eqn:HE.
@@ -246,7 +250,7 @@ Section Loop.
              destruct (p_exit p) as [T|] eqn:EX.
              ++ destruct (Qle_bool T (now s)) eqn:TE.
                 ** inversion L. subst r s'. rewrite (status_decode _ wfst).
-                   destruct I as (J1 & J2 & J3 & J4 & J5 & J6 & J7 & J8 & J9).
+                   destruct I as (J1 & J2 & J3 & J4 & J5 & J6 & J7 & J8 & J9 & J10).
                    unfold Post, at_time. cbn [now calls slept].
                    repeat split; try assumption; try lra; try lia.
                    unfold ended_by. rewrite EX. exact TE.
@@ -256,21 +260,22 @@ Section Loop.
                        +++ intros [Kn _]. discriminate.
                    --- inversion L. subst r s'. rewrite (status_decode _ wfst).
                        apply Qle_bool_false in TE.
-                       destruct I as (J1 & J2 & J3 & J4 & J5 & J6 & J7 & J8 & J9).
+                       destruct I as (J1 & J2 & J3 & J4 & J5 & J6 & J7 & J8 & J9 & J10).
                        unfold Post, at_time. cbn [now calls slept].
-                       repeat split; try assumption; try lra; try lia.
+                       repeat split; try assumption; try lra; try lia;
+                         try (intros t0 T0; rewrite (nohang_none _ NH) in T0; discriminate).
                        unfold ended_by. rewrite EX. apply Qle_bool_iff. lra.
              ++ destruct (nohang tmo) eqn:NH.
                 ** apply SLEEP in L; [exact L | |].
                    --- intros _. split; [discriminate|]. unfold ended_by. rewrite EX. reflexivity.
                    --- intros [Kn _]. discriminate.
                 ** inversion L. subst r s'.
-                   destruct I as (J1 & J2 & J3 & J4 & J5 & J6 & J7 & J8 & J9).
+                   destruct I as (J1 & J2 & J3 & J4 & J5 & J6 & J7 & J8 & J9 & J10).
                    unfold Post. repeat split; try assumption; try lra; try lia.
                    apply nohang_none. exact NH.
           -- (* NonChild: ECHILD *)
              assert (I2 : Inv PExists s1).
-             { destruct I1 as (J1 & J2 & J3 & J4 & J5 & J6 & J7 & J8 & J9).
+             { destruct I1 as (J1 & J2 & J3 & J4 & J5 & J6 & J7 & J8 & J9 & J10).
                unfold Inv. repeat split; try assumption.
                - intros _. rewrite K. discriminate.
                - apply J8; assumption. - apply J8; assumption. }
@@ -278,7 +283,7 @@ Section Loop.
              eapply post_trans; [| |exact PP]; [rewrite N1; lra | lia].
           -- (* NeverExisted: ECHILD *)
              assert (I2 : Inv PExists s1).
-             { destruct I1 as (J1 & J2 & J3 & J4 & J5 & J6 & J7 & J8 & J9).
+             { destruct I1 as (J1 & J2 & J3 & J4 & J5 & J6 & J7 & J8 & J9 & J10).
                unfold Inv. repeat split; try assumption.
                - intros _. rewrite K. discriminate.
                - apply J8; assumption. - apply J8; assumption. }
@@ -293,7 +298,7 @@ Section Loop.
           destruct (expired tmo stop s) eqn:X.
           -- inversion L. subst r s'. destruct (expired_true _ X) as (t & T & Le).
              rewrite (timeout_exc_some _ T).
-             destruct I as (J1 & J2 & J3 & J4 & J5 & J6 & J7 & J8 & J9).
+             destruct I as (J1 & J2 & J3 & J4 & J5 & J6 & J7 & J8 & J9 & J10).
              unfold Post. repeat split; try assumption; try lra; try lia.
              ++ eapply J6; eauto.
              ++ apply NN. ++ apply NN.
@@ -301,10 +306,10 @@ Section Loop.
              { intros [Kn _]. destruct NN as [NN _]. contradiction. }
              pose proof (inv_sleep _ _ I X NE) as I2.
              pose proof (IH _ _ _ _ I2 L) as PP.
-             destruct I as (J1 & J2 & J3 & J4 & J5 & J6 & J7 & J8 & J9).
+             destruct I as (J1 & J2 & J3 & J4 & J5 & J6 & J7 & J8 & J9 & J10).
              eapply post_trans; [| |exact PP]; cbn [do_sleep now calls]; [lra | lia].
         * inversion L. subst r s'.
-          destruct I as (J1 & J2 & J3 & J4 & J5 & J6 & J7 & J8 & J9).
+          destruct I as (J1 & J2 & J3 & J4 & J5 & J6 & J7 & J8 & J9 & J10).
           unfold Post. repeat split; try assumption; try lra; try lia.
           -- apply J7. reflexivity.
           -- apply J8; assumption.
@@ -327,6 +332,7 @@ Proof.
   split; [intros t T; rewrite T; pose proof (NN _ T); unfold cap; lra|].
   split; [discriminate|].
   split; [intros _ _; split; reflexivity|].
+  split; [intros; reflexivity|].
   intros; reflexivity.
 Qed.
 
@@ -376,7 +382,7 @@ Theorem never_early_status : forall p c0 tmo fuel t0 z o' t' sl,
 Proof.
   intros p c0 tmo fuel t0 z o' t' sl WF H.
   destruct (process_wait_fresh _ _ _ _ _ _ _ _ _ WF H) as [(_ & X & _)|(_ & s' & P & -> & _)]; [discriminate|].
-  destruct P as (_ & _ & _ & _ & K & En & Z). split; [exact K|]. split; [|exact Z].
+  destruct P as (_ & _ & _ & _ & _ & _ & K & En & Z). split; [exact K|]. split; [|exact Z].
   unfold ended_by in En. destruct (p_exit p) as [T|]; [|discriminate].
   exists T. split; [reflexivity|]. apply Qle_bool_iff. exact En.
 Qed.
@@ -390,7 +396,7 @@ Theorem never_early_none : forall p c0 tmo fuel t0 o' t' sl,
 Proof.
   intros p c0 tmo fuel t0 o' t' sl WF H.
   destruct (process_wait_fresh _ _ _ _ _ _ _ _ _ WF H) as [(_ & X & _)|(_ & s' & P & -> & -> & _)]; [discriminate|].
-  destruct P as (_ & _ & _ & _ & K & Ex & AO). split; [exact K|]. split.
+  destruct P as (_ & _ & _ & _ & _ & _ & K & Ex & AO). split; [exact K|]. split.
   - unfold k_exists in Ex. destruct (p_kind p); [contradiction| |left; reflexivity].
     right. apply negb_false_iff in Ex. unfold ended_by in Ex. destruct (p_exit p) as [T|]; [|discriminate].
     exists T. split; [reflexivity|]. apply Qle_bool_iff. exact Ex.
@@ -420,7 +426,7 @@ Theorem timeout_sound : forall p c0 tmo fuel t0 sec pid' o' t' sl,
 Proof.
   intros p c0 tmo fuel t0 sec pid' o' t' sl WF H.
   destruct (process_wait_fresh _ _ _ _ _ _ _ _ _ WF H) as [(_ & X & _)|(B & s' & P & -> & _ & ->)]; [discriminate|].
-  destruct P as (_ & _ & _ & _ & T & Pid & Le & Lt & Al). subst tmo. unfold cap in Lt.
+  destruct P as (_ & _ & _ & _ & _ & _ & T & Pid & Le & Lt & Al). subst tmo. unfold cap in Lt.
   repeat split; try assumption.
   - eapply bad_timeout_false; eauto.
   - apply Al; assumption.
@@ -480,7 +486,7 @@ Theorem no_other_outcome : forall p c0 tmo fuel t0 r o' t' sl,
 Proof.
   intros p c0 tmo fuel t0 r o' t' sl WF H.
   destruct (process_wait_fresh _ _ _ _ _ _ _ _ _ WF H) as [(B & -> & _)|(B & s' & P & _)]; [exact B|].
-  destruct P as (_ & _ & _ & _ & R). destruct r; try exact I; try exact R; contradiction.
+  destruct P as (_ & _ & _ & _ & _ & _ & R). destruct r; try exact I; try exact R; contradiction.
 Qed.
 
 (* the cache: once wait() has returned a value, every later call with a valid timeout returns
@@ -500,3 +506,39 @@ Proof.
         cbn [exitcode]. rewrite V. reflexivity. }
   unfold process_wait. rewrite B2, C. reflexivity.
 Qed.
+
+(* any Process.wait(tm) with tm >= 0 on any object (cached or not) returns within tm + 40 ms,
+   and at once when tm = 0 *)
+Lemma process_wait_bounded : forall p o tm fuel t0 r o' t' sl,
+  wf_proc p = true -> 0 <= tm ->
+  process_wait (k_waitpid p) (k_exists p) (p_pid p) o (Some tm) fuel t0 = (r, o', t', sl) ->
+  t0 <= t' /\ t' < t0 + tm + (1 # 25) /\ (tm == 0 -> t' == t0).
+Proof.
+  intros p o tm fuel t0 r o' t' sl WF NN H. unfold process_wait in H.
+  assert (B : bad_timeout (Some tm) = false).
+  { cbn. apply negb_false_iff. apply Qle_bool_iff. exact NN. }
+  rewrite B in H. destruct (exitcode o) as [c|].
+  - inversion H. subst. split; [lra|]. split; [lra|]. intros _. reflexivity.
+  - destruct (wait_pid (k_waitpid p) (k_exists p) (p_pid p) (Some tm) fuel t0 (kcalls o)) as [r0 s0] eqn:Wp.
+    inversion H. subst.
+    assert (NN' : forall t, Some tm = Some t -> 0 <= t) by (intros t E; inversion E; subst; exact NN).
+    pose proof (wait_pid_post _ _ _ _ _ _ _ WF NN' Wp) as (_ & Mono & _ & _ & Bd & Z0 & _).
+    cbn [init_wst now] in Mono. specialize (Bd tm eq_refl). specialize (Z0 tm eq_refl).
+    unfold cap in Bd. split; [lra|]. split; [lra|]. exact Z0.
+Qed.
+
+(* ---- the hypotheses of the theorems above are satisfiable: concrete runs ---- *)
+Definition ex_child : proc := mk_proc 7 Child (Some (3 # 1000)) (Killed 9 false) [1%nat].
+Definition ex_stuck : proc := mk_proc 8 NonChild None (ExitCode 0) [].
+
+Example ex_wait_status : exists o' t' sl,
+  wf_proc ex_child = true /\
+  process_wait (k_waitpid ex_child) (k_exists ex_child) (p_pid ex_child) (fresh 0) (Some (1 # 10)) 100 0
+  = (RInt (-9), o', t', sl) /\ length sl = 5%nat.
+Proof. eexists. eexists. eexists. split; [reflexivity|]. split; vm_compute; reflexivity. Qed.
+
+Example ex_wait_timeout : exists o' t' sl,
+  wf_proc ex_stuck = true /\
+  process_wait (k_waitpid ex_stuck) (k_exists ex_stuck) (p_pid ex_stuck) (fresh 0) (Some (1 # 10)) 100 0
+  = (RTimeout (1 # 10) 8, o', t', sl) /\ length sl = 11%nat.
+Proof. eexists. eexists. eexists. split; [reflexivity|]. split; vm_compute; reflexivity. Qed.
